@@ -45,7 +45,17 @@ ASSUMPTIONS = ['yaml_roundtrip_safe_tree: yaml.load(yaml.dump(t)) == t (types in
                'scalar reads back as the Python scalar of the same value (np.float32(0.1) -> 0.10000000149011612)',
                'to_yaml_file / from_yaml_file format str(config) for their log line whatever the log level: a configuration whose '
                'imf_opts / envelope_opts / extrema_opts entry is not a dict raises AttributeError there (modelled as is; the '
-               'round-trip theorems assume the three stage entries are dicts)']
+               'round-trip theorems assume the three stage entries are dicts)',
+               'NOT JUDGED by the instance checks (outside statement / quantifier): the error CLASS of a refused key path (an error on both '
+               'sides is agreement with nested indexing); keys deeper than three levels may be refused (any error, store unchanged) or do '
+               'what nested indexing does; key ORDER of stores / written options (compared as mappings); arrays that come back as arrays; '
+               'get_config on names that are no sift variant; YAML round trips of configurations whose sift type names no variant; whether '
+               'get_func returns a functools.partial (any callable); outcomes of the two stochastic variants when a call is not repeatable '
+               'under np.random.seed (run twice, tagged)',
+               'MECHANISM-LEVEL (literal=False): the private helper SiftConfig.__keytransform__ (stream keytransform), key-for-key / typed / '
+               'ordered equality of get_config with the live signatures (stream default_config; the behavioural statement is judged by '
+               'stream behaviour), the PyYAML assumption validators (stream yaml_codec), writing / calling leaving the live configuration '
+               'untouched, what functools.partial.keywords / the .store attribute hold, time-outs']
 RULE = ('edit sequences: 3-12 (quick) / up to 40 (thorough) get/set/del operations with slash keys of depth 1-4 on the '
         'default configuration of a random variant or on a random nested dict; keys are mostly existing paths, plus new '
         'leaves, missing parents, non-dict parents (scalar, list, tuple, array) and too-deep keys; values are scalars, None, '
@@ -81,6 +91,54 @@ def make_cfg(init):
 
 def kind_of(e):
     return err_kind(e)
+
+
+def _sorted(o):
+    if isinstance(o, dict):
+        return {k: _sorted(o[k]) for k in sorted(o, key=str)}
+    if isinstance(o, list):
+        return [_sorted(x) for x in o]
+    if isinstance(o, tuple):
+        return tuple(_sorted(x) for x in o)
+    return o
+
+
+def canon(o, forget=True):
+    """Canonical form of an option tree AS A MAPPING: key order is immaterial (options are passed as **kwargs);
+    with `forget` tuples / arrays count as lists ("tuples may become lists")."""
+    return _cfg.safe_wire(_sorted(_cfg.forget_kinds(o) if forget else o))
+
+
+def same_wire(a, b):
+    """two wire strings (optionally prefixed 'v:') denote the same typed tree AS MAPPINGS (dict key order immaterial)"""
+    if not isinstance(a, str) or not isinstance(b, str):
+        return a == b
+    if a == b:
+        return True
+    if a.startswith('v:') != b.startswith('v:'):
+        return False
+    if a.startswith('v:'):
+        a, b = a[2:], b[2:]
+    if a.startswith('?') or b.startswith('?') or a.startswith('e:') or b.startswith('e:'):
+        return a == b
+    try:
+        return canon_wire(a, forget=False) == canon_wire(b, forget=False)
+    except Exception:  # noqa  (not a wire string)
+        return False
+
+
+def same_outcome(a, b):
+    """results of one key-path operation agree: both refuse (ANY error class - the property fixes none; unknown classes
+    arrive as Other:<name>), both succeed, or both return the same value"""
+    a, b = str(a), str(b)
+    if a.startswith('e:') and b.startswith('e:'):
+        return True
+    return same_wire(a, b)
+
+
+def canon_wire(w, forget=True):
+    """canon() of a wire string ('?unencodable…' markers are returned as they are)"""
+    return w if (not isinstance(w, str) or w.startswith('?')) else canon(_cfg.unwire(w), forget)
 
 
 # ------------------------------------------------------------------------------------------------
@@ -226,7 +284,10 @@ class Edits(Stream):
             res.append(apply_keypath(cfg, op))
             if res[-1].startswith('e:'):
                 unchanged.append(_cfg.safe_wire(cfg.store) == before)
-            sres.append(apply_nested(shadow, op) if len(op['k'].split('/')) <= 3 else None)
+            # a key of more than three levels: the code refuses it (that is a rejection like any other - the store is
+            # unchanged); an implementation that walks any depth must do what nested indexing does. Both are accepted.
+            deep_rejected = len(op['k'].split('/')) > 3 and res[-1].startswith('e:')
+            sres.append(None if deep_rejected else apply_nested(shadow, op))
         return {'init': init, 'results': res, 'nested': sres, 'store': _cfg.safe_wire(cfg.store),
                 'nested_store': _cfg.safe_wire(shadow), 'failed_ops_left_store_unchanged': all(unchanged),
                 'keys': list(cfg), 'len': len(cfg),
@@ -251,26 +312,27 @@ class Edits(Stream):
         if not r.ok:
             return 'model answered %s' % r.raw[:200]
         for i, v in enumerate(out['results']):
-            if r.args.get('r%d' % i) != v:
+            if not same_outcome(r.args.get('r%d' % i), v):
                 return 'op %d %s: impl %s, model %s' % (i, case['ops'][i], v, r.args.get('r%d' % i))
-        if r.args.get('store') != out['store']:
+        if not same_wire(r.args.get('store'), out['store']):
             return 'final store: impl %s, model %s' % (out['store'], r.args.get('store'))
         return None
 
     def holds(self, case, out):
         if isinstance(out, ImplError):
-            return [Failure('raises:' + out['error'], out['msg'])]
+            return [Failure('raises:' + out['error'], out['msg'], literal=out['error'] != 'Timeout')]
         fs = []
         for i, (a, b) in enumerate(zip(out['results'], out['nested'])):
             op = case['ops'][i]
             if b is None:
-                if a != 'e:ValueError':
-                    fs.append(Failure('too-deep-key-not-rejected', '%s -> %s' % (op, a)))
-            elif a != b:
-                fs.append(Failure('keypath-%s-differs-from-nested-indexing:depth%d' % (op['o'], len(op['k'].split('/'))),
+                continue      # deeper than three levels and refused (any error class; `failed-edit-changed-the-store` applies)
+            if a.startswith('e:') and b.startswith('e:'):
+                continue      # both refuse: agreement ("exactly the entries that nested indexing does" fixes no error class)
+            if a != b:
+                fs.append(Failure('keypath-%s-differs-from-nested-indexing:depth%d' % (op['o'], min(len(op['k'].split('/')), 4)),
                                   'op %d %s: key path %s, nested indexing %s' % (i, op, a, b)))
                 break
-        if not fs and out['store'] != out['nested_store']:
+        if not fs and canon_wire(out['store'], forget=False) != canon_wire(out['nested_store'], forget=False):
             fs.append(Failure('keypath-edits-final-store-differs-from-nested-indexing',
                               '%s vs %s' % (out['store'], out['nested_store'])))
         if not out['failed_ops_left_store_unchanged']:
@@ -280,7 +342,7 @@ class Edits(Stream):
         if not out.get('fresh_is_pristine', True):
             fs.append(Failure('edit-leaks-into-later-config', 'a configuration created after the edits is not the pristine one'))
         final = _cfg.unwire(out['store']) if not out['store'].startswith('?') else None
-        if isinstance(final, dict) and (out['keys'] != list(final.keys()) or out['len'] != len(final)):
+        if isinstance(final, dict) and (sorted(map(str, out['keys'])) != sorted(map(str, final.keys())) or out['len'] != len(final)):
             fs.append(Failure('mapping-interface-disagrees-with-store', '%s / %s' % (out['keys'], out['len'])))
         return fs
 
@@ -330,21 +392,23 @@ class KeyTransform(Stream):
     def compare(self, case, out, results):
         r = results[0]
         if isinstance(out, ImplError):
-            return None if r.status == 'err' and r.words == [out['error']] else 'impl raised %s, model %s' % (out['error'], r.raw)
+            return None if r.status == 'err' else 'impl raised %s, model %s' % (out['error'], r.raw)     # both refuse: any class
         if not r.ok or r.args.get('parts') != _cfg.wire(out['parts']):
             return 'impl %s model %s' % (out['parts'], r.raw)
         return None
 
     def holds(self, case, out):
+        # `SiftConfig.__keytransform__` is a private helper the property never mentions (its return convention: str for
+        # one level, list otherwise, ValueError for more than three): the whole stream is mechanism-level (literal=False)
         exp = case['key'].split('/')
         if len(exp) > 3:
-            if not (isinstance(out, ImplError) and out['error'] == 'ValueError'):
-                return [Failure('too-deep-key-not-rejected', repr(case['key']))]
+            if not isinstance(out, ImplError):       # any exception is a rejection
+                return [Failure('too-deep-key-not-rejected', repr(case['key']), literal=False)]
             return []
         if isinstance(out, ImplError):
-            return [Failure('raises:' + out['error'], out['msg'])]
+            return [Failure('raises:' + out['error'], out['msg'], literal=False)]
         if out['parts'] != exp or out['is_str'] != (len(exp) == 1):
-            return [Failure('keytransform-wrong-levels', '%r -> %s' % (case['key'], out['parts']))]
+            return [Failure('keytransform-wrong-levels', '%r -> %s' % (case['key'], out['parts']), literal=False)]
         return []
 
     def tags(self, case, out):
@@ -376,11 +440,16 @@ def roundtrip(cfg, route):
 
 
 def func_summary(cfg):
+    """what get_func() binds: {'fn', 'kw'} of a functools.partial, {'fn': '?'} for any other callable (the property
+    promises "a callable"), {'error'} when get_func raises"""
     try:
         f = cfg.get_func()
-        return {'fn': getattr(f.func, '__name__', '?'), 'kw': _cfg.safe_wire(dict(f.keywords))}
     except Exception as e:  # noqa
         return {'error': kind_of(e)}
+    try:
+        return {'fn': getattr(f.func, '__name__', '?'), 'kw': _cfg.safe_wire(dict(f.keywords))}
+    except Exception:  # noqa
+        return {'fn': '?', 'kw': '?not-a-partial'}
 
 
 def gen_plain_sets(rng, store, n):
@@ -406,6 +475,12 @@ def _get(store, p):
             return None
         store = store[k]
     return store
+
+
+class _Unreadable:
+    """the emitted text is not readable by plain PyYAML FullLoader (safe_wire -> '?unencodable:_Unreadable')"""
+    def __init__(self, why):
+        self.why = why
 
 
 class YamlRoutes(Stream):
@@ -466,10 +541,13 @@ class YamlRoutes(Stream):
             return {'before': before, 'after': _cfg.safe_wire(cfg.store), 'stype': _cfg.wire(stype), 'error': kind_of(e),
                     'msg': str(e)[:200]}
         after = _cfg.safe_wire(cfg.store)
-        if case['route'] == 'file':
-            docs = list(yaml.load_all(text, Loader=yaml.FullLoader))
-        else:
-            docs = yaml.load(text, Loader=yaml.FullLoader)
+        try:       # only feeds the correspondence (what PyYAML reads from the text); a writer with tags of its own is legal
+            if case['route'] == 'file':
+                docs = list(yaml.load_all(text, Loader=yaml.FullLoader))
+            else:
+                docs = yaml.load(text, Loader=yaml.FullLoader)
+        except Exception as e:  # noqa
+            docs = _Unreadable(type(e).__name__)
         # a second generation: the loaded configuration written and read again is a fixed point
         try:
             _, back2 = roundtrip(back, case['route'])
@@ -490,49 +568,57 @@ class YamlRoutes(Stream):
             return 'implementation raised %s: %s' % (out['error'], out['msg'])
         r = results[0]
         if 'error' in out:
-            if r.status == 'err' and r.words[:1] == [out['error']] and r.args.get('live') == out['after']:
-                return None
+            if r.status == 'err' and same_wire(r.args.get('live'), out['after']):
+                return None         # both refuse (the error class is not compared)
             return 'impl raised %s (%s), model %s' % (out['error'], out['msg'], r.raw[:200])
         if not r.ok:
             return 'model answered %s' % r.raw[:200]
         for mk, ik in (('stype', 'back_stype'), ('store', 'back_store'), ('live', 'after')):
-            if r.args.get(mk) != out[ik]:
+            if not same_wire(r.args.get(mk), out[ik]):
                 return '%s: impl %s, model %s' % (ik, out[ik], r.args.get(mk))
-        if r.args.get('docs') != 'v:' + out['docs']:
+        if not out['docs'].startswith('?') and not same_wire(r.args.get('docs'), 'v:' + out['docs']):
             return 'documents written: PyYAML reads %s, model %s' % (out['docs'], r.args.get('docs'))
         return None
+
+    def _variant(self, case):
+        """the quantifier ranges over the sift VARIANTS: a configuration whose sift type names none is not judged"""
+        return (case['init'].get('config') or case['init'].get('name', 'sift')) in VARIANTS
 
     def holds(self, case, out):
         route = case['route']
         if isinstance(out, ImplError):
-            return [Failure('yaml-roundtrip:raises:%s:%s' % (out['error'], route), out['msg'])]
+            return [Failure('yaml-roundtrip:raises:%s:%s' % (out['error'], route), out['msg'], literal=out['error'] != 'Timeout')] \
+                if self._variant(case) else []
         fs = []
         if out['after'] != out['before']:
-            fs.append(Failure('yaml-dump-mutates-live-config', 'store before %s after %s' % (out['before'], out['after'])))
+            # that writing leaves the live configuration untouched is not C18's statement (C19's): mechanism-level
+            fs.append(Failure('yaml-dump-mutates-live-config', 'store before %s after %s' % (out['before'], out['after']), literal=False))
         if 'error' in out:
             o = _cfg.unwire(out['before'])
-            if all(isinstance(o.get(s_), dict) for s_ in ('imf_opts', 'envelope_opts', 'extrema_opts') if s_ in o):
+            if self._variant(case) and \
+                    all(isinstance(o.get(s_), dict) for s_ in ('imf_opts', 'envelope_opts', 'extrema_opts') if s_ in o):
                 fs.append(Failure('yaml-roundtrip:raises:%s:%s' % (out['error'], route), out['msg']))
-            return fs           # a stage entry that is not a dictionary: not a usable configuration, no claim
+            return fs           # a stage entry that is not a dictionary / no sift variant: not a usable configuration, no claim
         if out['back_stype'] != out['stype']:
             fs.append(Failure('yaml-roundtrip:sift-type-changed:' + route, '%s -> %s' % (out['stype'], out['back_stype'])))
         orig = _cfg.unwire(out['before'])
         back = None if out['back_store'].startswith('?') else _cfg.unwire(out['back_store'])
         if not isinstance(back, dict):
             fs.append(Failure('yaml-roundtrip:store-not-a-mapping:' + route, out['back_store'][:200]))
-        elif _cfg.wire(_cfg.forget_kinds(back)) != _cfg.wire(_cfg.forget_kinds(orig)):
+        elif canon(back) != canon(orig):        # the same options AS A MAPPING (key order is immaterial; tuples may become lists;
+            #                                      an array that comes back as an array is fine too)
             fs.append(Failure('yaml-roundtrip:options-changed:' + route, '%s -> %s' % (out['before'], out['back_store'])))
-        elif _cfg.has_array(back):
-            fs.append(Failure('yaml-roundtrip:array-survived', out['back_store'][:200]))
-        if not fs:
+        if not [f_ for f_ in fs if f_.literal]:
             f, g = out['func'], out['orig_func']
             if 'error' in g:
-                if f != g:
+                if 'error' not in f:
                     fs.append(Failure('yaml-roundtrip:get_func-differs:' + route, '%s vs %s' % (g, f)))
-            elif 'error' in f or f['fn'] != g['fn'] or \
-                    _cfg.wire(_cfg.forget_kinds(_cfg.unwire(f['kw']))) != _cfg.wire(_cfg.forget_kinds(_cfg.unwire(g['kw']))):
+            elif f.get('fn') == '?' or g.get('fn') == '?':
+                pass        # get_func returns a callable that is no functools.partial: nothing to look into (stream behaviour judges it)
+            elif 'error' in f or f['fn'] != g['fn'] or canon_wire(f['kw']) != canon_wire(g['kw']):
                 fs.append(Failure('yaml-roundtrip:get_func-differs:' + route, '%s vs %s' % (g, f)))
-            if out['again'] != [out['back_stype'], out['back_store']]:
+            if len(out['again']) != 2 or out['again'][0] != out['back_stype'] or \
+                    canon_wire(out['again'][1], forget=False) != canon_wire(out['back_store'], forget=False):
                 fs.append(Failure('yaml-roundtrip:second-generation-differs:' + route, str(out['again'])[:300]))
         return fs
 
@@ -611,16 +697,17 @@ class YamlCodec(Stream):
         return {'one': one, 'list': lst, 'many': many}
 
     def holds(self, case, out):
+        # statements about third-party PyYAML (emd is not called): a broken ASSUMPTION of the model, never a violation of C18
         if isinstance(out, ImplError):
-            return [Failure('assumption:yaml_roundtrip_safe_tree:raises:' + out['error'], out['msg'])]
+            return [Failure('assumption:yaml_roundtrip_safe_tree:raises:' + out['error'], out['msg'], literal=False)]
         if case.get('refused'):
             if out['refusal'] != ['ConstructorError'] * 3:
-                return [Failure('assumption:yaml_refuses_numpy_scalar', '%s -> %s' % (case['docs'], out['refusal']))]
+                return [Failure('assumption:yaml_refuses_numpy_scalar', '%s -> %s' % (case['docs'], out['refusal']), literal=False)]
             return []
         docs = [_cfg.build(d) for d in case['docs']]
         exp = [_cfg.wire(d) for d in docs]
         if out['one'] != exp or out['list'] != _cfg.wire(docs) or out['many'] != _cfg.wire(docs):
-            return [Failure('assumption:yaml_roundtrip_safe_tree', '%s -> %s' % (exp, out))]
+            return [Failure('assumption:yaml_roundtrip_safe_tree', '%s -> %s' % (exp, out), literal=False)]
         return []
 
     def tags(self, case, out):
@@ -715,16 +802,19 @@ class YamlForeign(Stream):
             return None if 'error' in out else 'loader accepted text PyYAML rejects'
         r = results[0]
         if 'error' in out:
-            return None if (r.status == 'err' and r.words == [out['error']]) else 'impl raised %s, model %s' % (out['error'], r.raw)
-        if not r.ok or r.args.get('stype') != out['stype'] or r.args.get('store') != out['store']:
+            # hand-written / malformed YAML is outside the quantifier: "both refuse" is agreement, whatever the classes
+            return None if r.status == 'err' else 'impl raised %s, model %s' % (out['error'], r.raw)
+        if not r.ok or r.args.get('stype') != out['stype'] or not same_wire(r.args.get('store'), out['store']):
             return 'impl (%s, %s) model %s' % (out['stype'], out['store'], r.raw)
-        if len(results) > 1:
+        if len(results) > 1 and out['store'].startswith('D'):
+            # (a document that is no mapping - '[]', a scalar - is no configuration: what get_func makes of it is not compared)
             g, f = results[1], out['func']
             if 'error' in f:
                 # a non-callable attribute (e.g. a module) is outside the model: only require that the model did not claim more
-                if g.status == 'err' and g.words != [f['error']] and out['known'] == 0:
-                    return 'get_func: impl raised %s, model %s' % (f['error'], g.raw)
-            elif not g.ok or g.args.get('fn') != _cfg.wire(f['fn']) or g.args.get('kw') != f['kw']:
+                pass        # get_func refuses: nothing the model could claim more precisely (error classes are not compared)
+            elif f.get('fn') == '?':
+                pass        # a callable that is no functools.partial: not inspected
+            elif not g.ok or g.args.get('fn') != _cfg.wire(f['fn']) or not same_wire(g.args.get('kw'), f['kw']):
                 return 'get_func: impl %s model %s' % (f, g.raw)
         return None
 
@@ -778,8 +868,8 @@ class Defaults(Stream):
     def compare(self, case, out, results):
         r = results[0]
         if isinstance(out, ImplError):
-            return None if (r.status == 'err' and r.words == [out['error']]) else 'impl raised %s, model %s' % (out['error'], r.raw)
-        if not r.ok or r.args.get('stype') != out['stype'] or r.args.get('store') != out['store']:
+            return None if r.status == 'err' else 'impl raised %s, model %s' % (out['error'], r.raw)      # both refuse
+        if not r.ok or r.args.get('stype') != out['stype'] or not same_wire(r.args.get('store'), out['store']):
             return 'impl %s model %s' % (out, r.raw)
         return None
 
@@ -787,11 +877,21 @@ class Defaults(Stream):
         S = sift_mod()
         name = case['name']
         if not callable(getattr(S, name, None) if name else None) or name not in VARIANTS:
-            if not isinstance(out, ImplError):
-                return [Failure('get_config-accepts-unknown-variant', name)]
-            return []
+            return []      # the property speaks about "each sift variant": no claim for other names (accepted or refused)
         if isinstance(out, ImplError):
             return [Failure('get_config-raises:' + out['error'], out['msg'])]
+        # What follows compares get_config with the live signatures key for key (typed, top level in signature order):
+        # the anchored MECHANISM ("defaults harvested from live function signatures"). The property's statement is
+        # behavioural - the unpacked default reproduces the no-option call - and is judged by stream behaviour
+        # (`no_options`). All four kinds are literal=False.
+        fs = self._mechanism(case, out)
+        for f in fs:
+            f.literal = False
+        return fs
+
+    def _mechanism(self, case, out):
+        S = sift_mod()
+        name = case['name']
         store = _cfg.unwire(out['store'])
         fs = []
         nested = {'imf_opts': (S.get_next_imf, ['X', 'envelope_opts', 'extrema_opts']),
@@ -929,6 +1029,11 @@ class Behaviour(Stream):
         if not case['edits']:
             out['no_options'] = outcome(lambda: func(x), seed)
         out['plain_kwargs'] = outcome(lambda: func(x, **kw), seed)
+        reproducible = True
+        if v in ('ensemble_sift', 'complete_ensemble_sift'):
+            # two stochastic calls are comparable only if seeding the legacy global generator makes a call repeatable;
+            # a library drawing its noise elsewhere (np.random.default_rng()) satisfies C18 and is not comparable bit for bit
+            reproducible = outcome(lambda: func(x, **kw), seed) == out['plain_kwargs']
         out['unpack'] = outcome(lambda: func(x, **cfg), seed)
         out['get_func'] = outcome(lambda: cfg.get_func()(x), seed)
         for route in ('file', 'text'):
@@ -937,8 +1042,8 @@ class Behaviour(Stream):
                 out[route] = outcome(lambda: back.get_func()(x), seed)
             except Exception as e:  # noqa
                 out[route] = 'e:route:' + kind_of(e)
-        f = cfg.get_func()
-        return {'outcomes': out, 'fn': getattr(f.func, '__name__', '?'), 'kw': _cfg.safe_wire(dict(f.keywords)),
+        fsum = func_summary(cfg)
+        return {'outcomes': out, 'fn': fsum.get('fn', '?'), 'kw': fsum.get('kw', '?'), 'reproducible': reproducible,
                 'store': before, 'store_after': _cfg.safe_wire(cfg.store), 'x_digest': digest(x)}
 
     def ops(self, case, out):
@@ -950,23 +1055,28 @@ class Behaviour(Stream):
         if isinstance(out, ImplError):
             return 'implementation raised %s: %s' % (out['error'], out['msg'])
         g = results[0]
-        if not g.ok or g.args.get('fn') != _cfg.wire(out['fn']) or g.args.get('kw') != out['kw']:
+        if out['fn'] == '?':
+            return 'skip:get_func-returns-a-callable-that-is-no-functools.partial'
+        if not g.ok or g.args.get('fn') != _cfg.wire(out['fn']) or not same_wire(g.args.get('kw'), out['kw']):
             return 'get_func: impl (%s, %s) model %s' % (out['fn'], out['kw'], g.raw)
         return None
 
     def holds(self, case, out):
         if isinstance(out, ImplError):
-            return [Failure('behaviour:raises:' + out['error'], out['msg'])]
+            return [Failure('behaviour:raises:' + out['error'], out['msg'], literal=out['error'] != 'Timeout')]
         o = out['outcomes']
         ref_name = 'no_options' if 'no_options' in o else 'plain_kwargs'
         ref = o[ref_name]
         fs = []
         for k2, v2 in o.items():
             if v2 != ref:
+                if not out.get('reproducible', True) and not str(v2).startswith('e:') and not str(ref).startswith('e:'):
+                    continue      # stochastic variant, not repeatable under np.random.seed: not comparable (tagged)
                 fs.append(Failure('behaviour:%s-differs-from-%s:%s' % (k2, ref_name, case['variant']),
                                   '%s=%s %s=%s' % (ref_name, ref, k2, v2)))
         if out['store_after'] != out['store']:
-            fs.append(Failure('behaviour:calls-changed-the-config', ''))
+            # calls leaving the configuration untouched: C19's statement, not C18's (mechanism-level here)
+            fs.append(Failure('behaviour:calls-changed-the-config', '', literal=False))
         return fs
 
     def tags(self, case, out):
@@ -974,6 +1084,9 @@ class Behaviour(Stream):
         if not isinstance(out, ImplError):
             t.append('outcome=' + ('error:' + out['outcomes']['plain_kwargs'][2:] if str(out['outcomes']['plain_kwargs']).startswith('e:')
                                    else 'array'))
+            if case['variant'] in ('ensemble_sift', 'complete_ensemble_sift'):
+                t.append('stochastic-variant:' + ('repeatable-under-np.random.seed' if out.get('reproducible', True)
+                                                  else 'NOT-repeatable-under-np.random.seed(outcomes-not-compared)'))
         for e in case['edits']:
             t.append('edit:' + e['k'])
         return t
@@ -1016,7 +1129,9 @@ class Aliasing(Stream):
         bystander = S.get_config(case['variant'])
         pristine = _cfg.wire(bystander.store)
         if case['taker'] == 'get_func':
-            taken = cfg.get_func().keywords
+            taken = getattr(cfg.get_func(), 'keywords', None)
+            if taken is None:
+                return {'not_a_partial': True}       # "a callable": nothing to look into
         elif case['taker'] == 'kwargs_copy':
             taken = S.SiftConfig(case['variant'], **cfg).store
         elif case['taker'] == 'dict_copy':
@@ -1033,10 +1148,15 @@ class Aliasing(Stream):
 
     def holds(self, case, out):
         if isinstance(out, ImplError):
-            return [Failure('aliasing:raises:' + out['error'], out['msg'])]
+            return [Failure('aliasing:raises:' + out['error'], out['msg'], literal=out['error'] != 'Timeout')]
         fs = []
+        if out.get('not_a_partial'):
+            return fs
         if not out['at_creation_equal']:
-            fs.append(Failure('partial-or-copy-differs-from-config-when-taken:' + case['taker']))
+            # looking into functools.partial.keywords / constructing from the `.store` attribute is mechanism-level;
+            # `SiftConfig(name, **cfg)` and `dict(cfg)` use the documented mapping interface only
+            fs.append(Failure('partial-or-copy-differs-from-config-when-taken:' + case['taker'],
+                              literal=case['taker'] in ('kwargs_copy', 'dict_copy')))
         if not out['readback']:
             fs.append(Failure('edit-not-read-back'))
         if not out['bystander_unchanged']:
@@ -1046,6 +1166,8 @@ class Aliasing(Stream):
     def tags(self, case, out):
         if isinstance(out, ImplError):
             return ['impl-error']
+        if out.get('not_a_partial'):
+            return ['taker=get_func', 'get_func-is-not-a-functools.partial(not-inspected)']
         depth = len(case['k'].split('/'))
         return ['taker=' + case['taker'],
                 'edit-depth%d:%s-by-%s' % (depth, 'seen' if out['seen'] else 'not-seen', case['taker']),
@@ -1053,7 +1175,22 @@ class Aliasing(Stream):
                 'as-modelled' if out['seen'] == (depth >= 2) else 'NOT-as-modelled(no sharing)']
 
     def nontrivial(self, case, out):
-        return not isinstance(out, ImplError) and len(case['k'].split('/')) >= 2
+        return not isinstance(out, ImplError) and not out.get('not_a_partial') and len(case['k'].split('/')) >= 2
 
 
 STREAMS = [Edits(), KeyTransform(), YamlRoutes(), YamlCodec(), YamlForeign(), Defaults(), Behaviour(), Aliasing()]
+
+
+def _guard(fn):
+    """An exception inside an instance check is a harness fault (an oracle tripping over an unexpected but legal
+    output container), not the property's words failing: reported as mechanism-level, never as a violation."""
+    def holds(self, case, out):
+        try:
+            return fn(self, case, out)
+        except Exception as e:  # noqa
+            return [Failure('instance-check-crashed', repr(e), literal=False)]
+    return holds
+
+
+for _cls in {_b for _s in STREAMS for _b in type(_s).__mro__ if _b.__module__ == __name__ and 'holds' in _b.__dict__}:
+    _cls.holds = _guard(_cls.holds)
